@@ -650,9 +650,24 @@ func ruleR011(c *Ctx) {
 		info := gi.pkg.TypesInfo
 		gname := declName(gi.pkg, gi.decl)
 		ast.Inspect(gi.decl.Body, func(n ast.Node) bool {
-			cl, ok := n.(*ast.CompositeLit)
-			if !ok || namedOf(info.TypeOf(cl)) == nil || namedOf(info.TypeOf(cl)).Obj() != a.funcType {
-				return true
+			var cl *ast.CompositeLit
+			var resolve func(ast.Expr) ast.Expr
+			switch t := n.(type) {
+			case *ast.CompositeLit:
+				cl = t
+			case *ast.CallExpr:
+				// the literal lives in a private constructor
+				cl, resolve = c.ctorLiteral(info, t)
+			}
+			if cl == nil || namedOf(info.TypeOf(cl)) == nil || namedOf(info.TypeOf(cl)).Obj() != a.funcType {
+				if cl != nil && resolve != nil {
+					// the constructor is generic code of the same package: compare by type name
+					if nm := namedOf(c.typeOfAny(cl)); nm == nil || nm.Obj() != a.funcType {
+						return true
+					}
+				} else {
+					return true
+				}
 			}
 			for _, el := range cl.Elts {
 				kv, ok := el.(*ast.KeyValueExpr)
@@ -660,12 +675,16 @@ func ruleR011(c *Ctx) {
 					continue
 				}
 				if k, ok := kv.Key.(*ast.Ident); ok && k.Name == "Func" {
-					if off, name, ok := gi.childOf(info, kv.Value); ok {
+					val := kv.Value
+					if resolve != nil {
+						val = resolve(val)
+					}
+					if off, name, ok := gi.childOf(info, val); ok {
 						key := fmt.Sprintf("%s#Function{Func:%s}", gname, name)
 						if !off.newFrame {
-							c.Violation(key, kv.Pos(), "child %s compiled with %s is installed as the body of a Function; it needs a fresh frame context", name, off)
+							c.Violation(key, n.Pos(), "child %s compiled with %s is installed as the body of a Function; it needs a fresh frame context", name, off)
 						} else {
-							c.checkArgsField(info, key, cl, off)
+							c.checkArgsField(info, key, cl, off, resolve)
 						}
 					}
 				}
@@ -699,14 +718,18 @@ func firstMatch(root ast.Node, pred func(ast.Node) bool) ast.Node {
 
 // checkArgsField: Function{Func: ..., Args: len(X)} where X is the am of the
 // context the body was compiled with.
-func (c *Ctx) checkArgsField(info *types.Info, key string, cl *ast.CompositeLit, off ctxOffset) {
+func (c *Ctx) checkArgsField(info *types.Info, key string, cl *ast.CompositeLit, off ctxOffset, resolve func(ast.Expr) ast.Expr) {
 	for _, el := range cl.Elts {
 		kv, ok := el.(*ast.KeyValueExpr)
 		if !ok {
 			continue
 		}
 		if k, ok := kv.Key.(*ast.Ident); ok && k.Name == "Args" {
-			if call, ok := ast.Unparen(kv.Value).(*ast.CallExpr); ok && len(call.Args) == 1 {
+			val := kv.Value
+			if resolve != nil {
+				val = resolve(val)
+			}
+			if call, ok := ast.Unparen(val).(*ast.CallExpr); ok && len(call.Args) == 1 {
 				if id, ok := ast.Unparen(call.Fun).(*ast.Ident); ok && id.Name == "len" {
 					if k2, ok := exprKey(info, call.Args[0]); ok && k2 == off.amKey {
 						c.OK(key, kv.Pos(), "Args is the length of the argument list the body was compiled with (%s)", off.amText)
@@ -714,7 +737,7 @@ func (c *Ctx) checkArgsField(info *types.Info, key string, cl *ast.CompositeLit,
 					}
 				}
 			}
-			c.Violation(key, kv.Pos(), "Function.Args is %s but the body was compiled with the argument list %s: the call-site arity check does not protect the frame layout", nodeStr(c.Fset, kv.Value), off.amText)
+			c.Violation(key, val.Pos(), "Function.Args is %s but the body was compiled with the argument list %s: the call-site arity check does not protect the frame layout", nodeStr(c.Fset, val), off.amText)
 			return
 		}
 	}
@@ -729,8 +752,21 @@ func (c *Ctx) checkNewFrameHost(a *genAnchors, gi *generatorInfo, key string, li
 	if kv, ok := c.Parent(lit).(*ast.KeyValueExpr); ok {
 		if k, ok := kv.Key.(*ast.Ident); ok && k.Name == "Func" {
 			if cl, ok := c.Parent(kv).(*ast.CompositeLit); ok && namedOf(info.TypeOf(cl)) != nil && namedOf(info.TypeOf(cl)).Obj() == a.funcType {
-				c.checkArgsField(info, key, cl, off)
+				c.checkArgsField(info, key, cl, off, nil)
 				return
+			}
+		}
+	}
+	// the Function literal lives in a private constructor: newFunction(lit, len(names), ...)
+	if pc, ok := c.Parent(lit).(*ast.CallExpr); ok {
+		if cl, argOf := c.ctorLiteral(info, pc); cl != nil && namedOf(info.TypeOf(cl)) != nil && namedOf(info.TypeOf(cl)).Obj() == a.funcType {
+			for _, el := range cl.Elts {
+				if kv, ok := el.(*ast.KeyValueExpr); ok {
+					if k, ok := kv.Key.(*ast.Ident); ok && k.Name == "Func" && argOf(kv.Value) == ast.Expr(lit) {
+						c.checkArgsField(info, key, cl, off, argOf)
+						return
+					}
+				}
 			}
 		}
 	}
@@ -842,4 +878,71 @@ func litSuffix(c *Ctx, fn ast.Node) string {
 		return "$lit"
 	}
 	return fmt.Sprintf("$lit%d", ordinalIn(decl, lit, func(x ast.Node) bool { _, ok := x.(*ast.FuncLit); return ok }))
+}
+
+// ctorLiteral looks through a private constructor: if call invokes a function
+// of the module whose body is a single `return T{...}` or `return &T{...}`,
+// it returns that literal and a function that maps a field value of the
+// literal to the expression at the call site (a parameter is replaced by the
+// argument passed for it; anything else is returned unchanged).
+func (c *Ctx) ctorLiteral(info *types.Info, call *ast.CallExpr) (*ast.CompositeLit, func(ast.Expr) ast.Expr) {
+	cal := Callee(info, call)
+	if cal == nil || cal.Pkg() == nil {
+		return nil, nil
+	}
+	var fd *ast.FuncDecl
+	var cinfo *types.Info
+	for _, p := range loadedPkgs {
+		if p.Types == cal.Pkg() {
+			fd = findFuncDecl(p, cal)
+			cinfo = p.TypesInfo
+		}
+	}
+	if fd == nil || fd.Body == nil || len(fd.Body.List) != 1 {
+		return nil, nil
+	}
+	ret, ok := fd.Body.List[0].(*ast.ReturnStmt)
+	if !ok || len(ret.Results) != 1 {
+		return nil, nil
+	}
+	e := ast.Unparen(ret.Results[0])
+	if u, ok := e.(*ast.UnaryExpr); ok && u.Op == token.AND {
+		e = ast.Unparen(u.X)
+	}
+	cl, ok := e.(*ast.CompositeLit)
+	if !ok {
+		return nil, nil
+	}
+	params := map[types.Object]int{}
+	i := 0
+	if fd.Type.Params != nil {
+		for _, f := range fd.Type.Params.List {
+			for _, nm := range f.Names {
+				params[cinfo.Defs[nm]] = i
+				i++
+			}
+		}
+	}
+	if sig, ok := cal.Type().(*types.Signature); ok && sig.Variadic() {
+		return nil, nil
+	}
+	argOf := func(v ast.Expr) ast.Expr {
+		if id, ok := ast.Unparen(v).(*ast.Ident); ok {
+			if k, ok := params[cinfo.ObjectOf(id)]; ok && k < len(call.Args) {
+				return ast.Unparen(call.Args[k])
+			}
+		}
+		return v
+	}
+	return cl, argOf
+}
+
+// typeOfAny returns the type of an expression of any loaded package.
+func (c *Ctx) typeOfAny(e ast.Expr) types.Type {
+	for _, p := range loadedPkgs {
+		if t := p.TypesInfo.TypeOf(e); t != nil {
+			return t
+		}
+	}
+	return nil
 }
